@@ -41,7 +41,39 @@ pub fn reference_variant() -> Variant {
     Variant { kind: "import".into(), pool: 1, perm_seed: 0, entropy: 0xC16, label: "reference".into() }
 }
 
+/// a library beyond the size thresholds of parallel code paths: 700-1200 small notes, more than 2000 search paths,
+/// few distinct heading texts of equal length (masses of ties in score, length and rank), ranks of a few values
+pub fn scale_library(seed: u64) -> Library {
+    let mut work = Rng::stream(seed, "scale-workload");
+    let n = work.range(700, 1200);
+    let words = ["alpha", "bravo", "delta"];
+    let mut notes = BTreeMap::new();
+    for i in 0..n {
+        let k = if i % 5 == 0 { format!("d{}/n{:04}", i % 3, i) } else { format!("n{:04}", i) };
+        let w1 = words[work.below(3)];
+        let w2 = words[work.below(3)];
+        let mut t = format!("# note {:04}\n\n## {}\n\ntext {}\n\n## {}\n\n", if work.chance(1, 10) { 0 } else { i }, w1, i, w2);
+        if work.chance(1, 4) {
+            let j = work.below(40);
+            let target = if j % 5 == 0 { format!("d{}/n{:04}", j % 3, j) } else { format!("n{:04}", j) };
+            let rel = if i % 5 == 0 { format!("../{}", target) } else { target };
+            t.push_str(&format!("[x]({})\n", rel));
+        } else {
+            t.push_str("more\n");
+        }
+        notes.insert(k, t);
+    }
+    Library { refs_ext: String::new(), notes, queries: vec![String::new(), "alpha".into(), "note".into(), "note bravo".into()] }
+}
+
+pub fn is_scale(seed: u64, thorough: bool) -> bool {
+    Rng::stream(seed, "scale-library").chance(1, if thorough { 100 } else { 200 })
+}
+
 pub fn generate(seed: u64, thorough: bool) -> Library {
+    if is_scale(seed, thorough) {
+        return scale_library(seed);
+    }
     let mut swarm = Rng::stream(seed, "swarm");
     let mut work = Rng::stream(seed, "workload");
     let n = if thorough {
@@ -59,6 +91,9 @@ pub fn generate(seed: u64, thorough: bool) -> Library {
         // bare names that are not keys themselves but are the file name of notes in two directories
         targets.push("readme".into());
         targets.push("idea".into());
+        // a name that matches two keys of the pool only when letter case is ignored
+        targets.push("TODO".into());
+        targets.push("TODO".into());
     }
     let cfg = GenCfg { keys: keys.clone(), targets, max_blocks: swarm.range(1, 6), max_depth: 2 };
     let mut docs: BTreeMap<String, Doc> = BTreeMap::new();
